@@ -194,16 +194,100 @@ func (r Result) String() string { return [...]string{"unsat", "sat", "unknown"}[
 func (s *Solver) Check(conds []*Term, wantModel bool) (Result, map[string]*big.Int) {
 	res, m := s.checkOnce(conds, wantModel)
 	if res == Unknown && s.TimeoutMs > 0 && s.RetryFactor > 1 {
-		// a wall-clock timeout is not a verdict about the formula (the machine may be loaded): one retry with a
-		// larger budget before the query is reported as unknown
-		old := s.TimeoutMs
-		s.setTimeout(old * s.RetryFactor)
-		s.Stats.Unknown--
+		// "unknown" from the incremental core is not a verdict about the formula: the machine may be loaded, and
+		// z3's incremental mode does not run the bit-blasting tactic pipeline that decides 64-bit multiply/divide
+		// queries. The query is written out as a standalone script and given once to a fresh one-shot z3 with a larger
+		// budget before it is reported as unknown.
 		s.Stats.Retries++
-		res, m = s.checkOnce(conds, wantModel)
-		s.setTimeout(old)
+		r2, m2 := s.oneShot(conds, wantModel, time.Duration(s.TimeoutMs*s.RetryFactor)*time.Millisecond)
+		if r2 != Unknown {
+			s.Stats.Unknown--
+			if r2 == Sat {
+				s.Stats.Sat++
+			} else {
+				s.Stats.Unsat++
+			}
+			return r2, m2
+		}
 	}
 	return res, m
+}
+
+// oneShot decides conds with a fresh solver process on a standalone script.
+func (s *Solver) oneShot(conds []*Term, wantModel bool, timeout time.Duration) (Result, map[string]*big.Int) {
+	var live []*Term
+	for _, c := range conds {
+		if !c.IsTrue() {
+			live = append(live, c)
+		}
+	}
+	script := s.ctx.Script(live, "")
+	var vars []*Term
+	if wantModel {
+		need := new(big.Int)
+		for _, c := range live {
+			need.Or(need, s.ctx.VarSet(c))
+		}
+		for i, v := range s.ctx.Vars {
+			if need.Bit(i+1) == 1 {
+				vars = append(vars, v)
+			}
+		}
+		if len(vars) > 0 {
+			var sb strings.Builder
+			sb.WriteString("(get-value (")
+			for _, v := range vars {
+				sb.WriteString(varSym(v))
+				sb.WriteByte(' ')
+			}
+			sb.WriteString("))\n")
+			script += sb.String()
+		}
+	}
+	f, err := os.CreateTemp("", "gosym-oneshot-*.smt2")
+	if err != nil {
+		return Unknown, nil
+	}
+	defer os.Remove(f.Name())
+	f.WriteString(script)
+	f.Close()
+	t0 := time.Now()
+	out, err := runWithTimeout([]string{"z3", f.Name()}, timeout)
+	d := time.Since(t0).Nanoseconds()
+	s.Stats.WallNs += d
+	if d > s.Stats.MaxNs {
+		s.Stats.MaxNs = d
+	}
+	if err != nil && out == "" {
+		return Unknown, nil
+	}
+	first := ""
+	rest := out
+	if i := strings.Index(out, "\n"); i >= 0 {
+		first, rest = strings.TrimSpace(out[:i]), out[i+1:]
+	} else {
+		first = strings.TrimSpace(out)
+	}
+	switch first {
+	case "unsat":
+		if strings.Contains(out, "(error") && !wantModel {
+			return Unknown, nil
+		}
+		if strings.Contains(strings.Replace(out, "model is not available", "", -1), "(error") {
+			return Unknown, nil
+		}
+		return Unsat, nil
+	case "sat":
+		if strings.Contains(out, "(error") {
+			return Unknown, nil
+		}
+		m := map[string]*big.Int{}
+		if wantModel {
+			parseValues(rest, vars, m)
+		}
+		return Sat, m
+	}
+	return Unknown, nil
 }
 
 func (s *Solver) setTimeout(ms int) {
